@@ -530,7 +530,7 @@ pub fn c04(big: bool) -> BoxedStrategy<Case> {
     let base = OpWeights { stop: 7, halt: 4, try_stop: 5, await_: 7, drop: 0, give: 2, join: 3, consume: 2, restart: 2, max_sleep: 4, send: 28, call: 24, ping: 5, convert: 8, ..MSG_WEIGHTS };
     let op = mixed_ops(base, vec![(8, msg_op(1, 1, ctx_work(3, 3, 0)))]);
     let spawn = prop_oneof![
-        8 => plain_spawn(false),
+        8 => plain_spawn(true),
         2 => (mailbox(), 2u32..6, any::<bool>(), any::<bool>()).prop_map(|(mailbox, t, owning, fail_on_timeout)| SpawnSpec::Build { mailbox, strategy: RStrat::Default, timeout: Some(t), fail_on_timeout, owning }),
         2 => stream_spawn(),
     ];
@@ -1010,8 +1010,9 @@ pub fn c17(big: bool) -> BoxedStrategy<Case> {
         1 => Just(Cause::StopPanic),
         1 => Just(Cause::FinishPanic),
         1 => (0u32..10).prop_map(Cause::Cancel),
+        1 => prop_oneof![Just(FailHow::Err), Just(FailHow::Panic)].prop_map(Cause::RestartFail),
     ];
-    let base = OpWeights { send: 22, call: 22, ping: 4, convert: 10, yield_: 4, sleep: 3, give: 2, drop: 3, stop: 6, halt: 1, await_: 2, join: 12, consume: 4, detach: 3, max_sleep: 4, ..MSG_WEIGHTS };
+    let base = OpWeights { send: 22, call: 22, ping: 4, convert: 10, yield_: 4, sleep: 3, give: 2, drop: 3, stop: 6, halt: 1, await_: 2, join: 12, consume: 4, detach: 3, restart: 3, max_sleep: 4, ..MSG_WEIGHTS };
     let op = mixed_ops(base, vec![(5, msg_op(1, 1, ctx_work(3, 3, 0))), (3, h().prop_map(|h| ClientOp::JoinStash { h }).boxed()), (3, h().prop_map(|h| ClientOp::JoinDiscard { h }).boxed()), (3, h().prop_map(|h| ClientOp::JoinLazyDetach { h }).boxed()), (4, Just(ClientOp::AwaitLazy).boxed())]);
     (spawn, cause, 1usize..=3, slow_callback())
         .prop_flat_map(move |(spawn, cause, n, stopped)| (Just(spawn), Just((cause, stopped)), grants(n, true, 1), vec(vec(op.clone(), 3..=max_ops), n..=n), schedule(if big { 96 } else { 48 })))
@@ -1021,6 +1022,7 @@ pub fn c17(big: bool) -> BoxedStrategy<Case> {
                 Cause::StartFail(how) => faults.push(Fault::StartFail { actor: 0, inc: 0, how }),
                 Cause::HandlerPanic(kth) => faults.push(Fault::HandlerPanic { actor: 0, kth }),
                 Cause::StopPanic => faults.push(Fault::StopPanic { actor: 0 }),
+                Cause::RestartFail(how) => faults.push(Fault::StartFail { actor: 0, inc: 1, how }),
                 Cause::FinishPanic => {
                     // only stream-attached actors have a `finished` callback
                     if !matches!(spawn, SpawnSpec::Stream { .. }) {
